@@ -184,6 +184,8 @@ PROPS = {
     'C11': dict(
         tv=dict(module='ScannerTrace', cfg='ScannerTrace.cfg'),
         mc=[dict(module='ScannerMC', cfg={'quick': 'ScannerMC.quick.cfg', 'thorough': 'ScannerMC.thorough.cfg'})],
+        gen=[dict(module='ScannerGen', tag='cover', cfg={'quick': 'ScannerGen.cover.quick.cfg', 'thorough': 'ScannerGen.cover.thorough.cfg'}),
+             dict(module='ScannerGen', tag='sim', cfg='ScannerGen.sim.cfg', sim={'quick': (300, 43), 'thorough': (5000, 43)})],
         corrupt=[('obs.col+1', _bump('obs.col')), ('obs.pline+1', _bump('obs.pline')), ('ret+1', _bump('ret'))],
         exhaustive_part=True,
         assumptions=['guarded hook StringScanner.VerifCursor returns position+1 (io/verif_hooks.go)'],
@@ -191,12 +193,18 @@ PROPS = {
     'C17': dict(
         tv=dict(module='CharMapTrace', cfg='CharMapTrace.cfg'),
         mc=[dict(module='CharMapMC', cfg={'quick': 'CharMapMC.quick.cfg', 'thorough': 'CharMapMC.thorough.cfg'})],
+        gen=[dict(module='CharMapGen', tag='map', cfg={'quick': 'CharMapGen.map.quick.cfg', 'thorough': 'CharMapGen.map.thorough.cfg'}),
+             dict(module='CharMapGen', tag='tokenizer', cfg={'quick': 'CharMapGen.tokenizer.quick.cfg', 'thorough': 'CharMapGen.tokenizer.thorough.cfg'}, tiers=('thorough',)),
+             dict(module='CharMapGen', tag='word', cfg={'quick': 'CharMapGen.word.quick.cfg', 'thorough': 'CharMapGen.word.thorough.cfg'}),
+             dict(module='CharMapGen', tag='sim', cfg='CharMapGen.sim.cfg', sim={'quick': (150, 15), 'thorough': (3000, 15)})],
         corrupt=[('look[3] id', _setlook(3))],
         exhaustive_part=True,
     ),
     'C16': dict(
         tv=dict(module='SymbolTrieTrace', cfg='SymbolTrieTrace.cfg'),
         mc=[dict(module='SymbolTrieMC', cfg={'quick': 'SymbolTrieMC.quick.cfg', 'thorough': 'SymbolTrieMC.thorough.cfg'})],
+        gen=[dict(module='SymbolTrieGen', tag='cover', cfg={'quick': 'SymbolTrieGen.cover.quick.cfg', 'thorough': 'SymbolTrieGen.cover.thorough.cfg'}, heap='8g'),
+             dict(module='SymbolTrieGen', tag='sim', cfg='SymbolTrieGen.sim.cfg', sim={'quick': (200, 33), 'thorough': (4000, 33)})],
         corrupt=[('obs.type+1', _bump('obs.type')), ('obs.k+1', _bump('obs.k'))],
         exhaustive_part=True,
         assumptions=['guarded hook StringScanner.VerifCursor (consumed characters)'],
